@@ -646,6 +646,22 @@ def gen_special(rng, hid, which):
         sc.advance(rng.choice([0, 500]))
         sc.deliver([r_ptr(TY1, s.inst, rng.choice([2, 5]), cls=0x8001)], 2)
         return sc.finish(8000)
+    if which == "stop-second-name":
+        # the instance is browsed under its type and a subtype; one of the two is stopped (finding
+        # C05-stop-browse-drops-shared-records: the instance's SRV/TXT/address records go with it),
+        # or - control - the instance has only one PTR name and another type is stopped
+        both = rng.random() < 0.75
+        sc = Scenario(rng, hid, True, [TY1, SUB1])
+        s = Svc(rng, rng.choice(INST_LABELS), TY1, rng.choice(HOSTS), 2, sub=SUB1 if both else None)
+        s.ttl_ptr = 4500; s.ttl_srv = rng.choice([10, 120]); s.ttl_a = 120; s.addrs = s.addrs[:1]
+        sc.advance(100)
+        sc.deliver(s.recs(), 2, v4=True)
+        sc.advance(rng.choice([500, 1500]))
+        sc.pending_calls.append(sc.h.stop(rng.choice([TY1, SUB1])))
+        if rng.random() < 0.3:
+            sc.advance(rng.choice([500, 2000]))
+            sc.deliver(s.recs("SA"), 2, v4=True)          # the records come back: resolved again
+        return sc.finish(rng.choice([3000, 12000]))
     if which == "browse-expiring":
         # browse starts while a cached PTR record of the type is in its last second (finding
         # C04-browse-over-expiring-ptr), or shortly before that (control: must pass).  The PTR gets
